@@ -23,13 +23,16 @@ ExtBehaviours == {"honest", "otherRoot", "otherInput", "otherAggrTime", "otherPu
 CertStates == {"valid", "startsAtAggr", "endsAtAggr", "notYetValid", "expired", "unknownId", "badSignature"}
 PfStates == [atSig : {"match", "otherHash", "absent"}, later : {"true", "otherHash", "none"}]
 Envs == [internal : {"ok", "broken"}, cal : BOOLEAN, rec : Recs, up : {"none", "given"}, upTime : UpTimes, upHash : {"true", "other"},
-         pf : {"none", "given"}, pfc : PfStates, extAllowed : BOOLEAN, ext : ExtBehaviours, cert : CertStates]
+         pf : {"none", "given"}, pfsrc : {"user", "downloadTrusted", "downloadUntrusted"}, pfc : PfStates, extAllowed : BOOLEAN, ext : ExtBehaviours, cert : CertStates]
 WellFormed(e) == /\ (e.rec # "none" => e.cal)
                  /\ (e.up = "none" => e.upTime = "later" /\ e.upHash = "true")            \* canonical don't-cares
-                 /\ (e.pf = "none" => e.pfc = [atSig |-> "absent", later |-> "none"])
+                 /\ (e.pf = "none" => e.pfc = [atSig |-> "absent", later |-> "none"] /\ e.pfsrc = "user")
                  /\ (e.rec # "auth" => e.cert = "valid")
                  /\ (~e.cal => e.upTime # "between")
 
+(* A publications file is usable as an anchor source if the caller handed it over, or if the one fetched from the configured URL passes    *)
+(* PKI verification (C18); a fetched file that is not trusted is as good as no file: a resource failure, never an anchor.               *)
+PfAvail(e) == e.pf = "given" /\ e.pfsrc # "downloadUntrusted"
 (* the extender's reply, as far as the rules look at it *)
 FetchOk(e) == e.ext \notin {"errorStatus", "badHmac", "noReply", "otherId"}
 RootTrue(e) == e.ext \notin {"otherRoot", "otherInput", "alteredRightLink", "otherPubTime"}   \* root = the true calendar root at the requested time
@@ -63,13 +66,13 @@ Leaf(n, e) ==
     [] n = "CalendarHashChainPresence" -> If(e.cal, OKr, NA2)
     [] n = "AlgorithmNotDeprecated" -> OKr
     [] n = "CalendarAuthRecPresence" -> If(e.rec = "auth", OKr, NA2)
-    [] n = "CertificateExistence" -> If(e.rec # "auth", NA2, If(e.pf = "none", NAerr, If(e.cert = "unknownId", NA2, OKr)))
+    [] n = "CertificateExistence" -> If(e.rec # "auth", NA2, If(~PfAvail(e), NAerr, If(e.cert = "unknownId", NA2, OKr)))
     [] n = "CertificateValidity" -> If(e.cert \in {"notYetValid", "expired"}, FAIL("KEY-03"), OKr)
     [] n = "CalAuthRecSignature" -> If(e.cert = "badSignature", FAIL("KEY-02"), OKr)
-    [] n = "PubFileContainsSignaturePublication" -> If(e.pf = "none", NAerr, If(e.pfc.atSig # "absent", OKr, NA0))
-    [] n = "PubFileSignaturePublicationVerification" -> If(e.pf = "none", NAerr, If(e.pfc.atSig = "match", OKr, FAIL("PUB-05")))
-    [] n = "PubFileDoesNotContainSignaturePublication" -> If(e.pf = "none", NAerr, If(e.pfc.atSig = "absent", OKr, NA0))
-    [] n = "PubFileContainsSuitablePublication" -> If(e.pf = "none", NAerr, If(NearestHash(e) # "none", OKr, NA2))
+    [] n = "PubFileContainsSignaturePublication" -> If(~PfAvail(e), NAerr, If(e.pfc.atSig # "absent", OKr, NA0))
+    [] n = "PubFileSignaturePublicationVerification" -> If(~PfAvail(e), NAerr, If(e.pfc.atSig = "match", OKr, FAIL("PUB-05")))
+    [] n = "PubFileDoesNotContainSignaturePublication" -> If(~PfAvail(e), NAerr, If(e.pfc.atSig = "absent", OKr, NA0))
+    [] n = "PubFileContainsSuitablePublication" -> If(~PfAvail(e), NAerr, If(NearestHash(e) # "none", OKr, NA2))
     [] n = "ExtendingPermitted" -> If(e.extAllowed, OKr, NA2)
     [] n = "PubFileHashMatchesExtender" -> If(NearestHash(e) = "true" /\ RootTrue(e), OKr, FAIL("PUB-01"))
     [] n = "PubFileTimeMatchesExtender" -> If(PubTimeOk(e) /\ AggrOk(e), OKr, FAIL("PUB-02"))
@@ -138,25 +141,25 @@ ExtBound(e) == FetchOk(e) /\ RootTrue(e) /\ InputOk(e) /\ AggrOk(e) /\ PubTimeOk
 BoundUser(e) == /\ e.up = "given" /\ e.upHash = "true"
                 /\ \/ e.rec = "pub" /\ e.upTime = "atSigPub"
                    \/ e.upTime # "earlier" /\ e.extAllowed /\ ExtBound(e)
-BoundPf(e) == /\ e.pf = "given"
+BoundPf(e) == /\ PfAvail(e)
               /\ \/ e.rec = "pub" /\ e.pfc.atSig = "match"
                  \/ NearestHash(e) = "true" /\ e.extAllowed /\ ExtBound(e)
-BoundKey(e) == e.rec = "auth" /\ e.pf = "given" /\ e.cert \in {"valid", "startsAtAggr", "endsAtAggr"}
+BoundKey(e) == e.rec = "auth" /\ PfAvail(e) /\ e.cert \in {"valid", "startsAtAggr", "endsAtAggr"}
 BoundCal(e) == FetchOk(e) /\ InputOk(e) /\ AggrOk(e) /\ (e.rec = "pub" => RootTrue(e)) /\ (e.cal /\ e.rec # "pub" => RLinksOk(e))
 Bound(p, e) == CASE p = "CAL" -> BoundCal(e) [] p = "KEY" -> BoundKey(e) [] p = "PUBFILE" -> BoundPf(e) [] p = "USERPUB" -> BoundUser(e)
                  [] p = "GENERAL" -> IF e.up = "given" THEN BoundUser(e) ELSE (BoundPf(e) \/ BoundKey(e))
 (* something the verifier was given contradicts the signature *)
 Contradiction(p, e) == \/ e.internal = "broken"
                        \/ p \in {"USERPUB", "GENERAL"} /\ e.up = "given" /\ (e.upHash = "other" \/ (FetchOk(e) /\ ~(RootTrue(e) /\ InputOk(e) /\ AggrOk(e) /\ PubTimeOk(e))))
-                       \/ p \in {"PUBFILE", "GENERAL"} /\ e.pf = "given" /\ (e.pfc.atSig = "otherHash" \/ e.pfc.later = "otherHash" \/ (FetchOk(e) /\ ~(RootTrue(e) /\ InputOk(e) /\ AggrOk(e) /\ PubTimeOk(e))))
-                       \/ p \in {"KEY", "GENERAL"} /\ e.rec = "auth" /\ e.cert \in {"notYetValid", "expired", "badSignature"}
+                       \/ p \in {"PUBFILE", "GENERAL"} /\ PfAvail(e) /\ (e.pfc.atSig = "otherHash" \/ e.pfc.later = "otherHash" \/ (FetchOk(e) /\ ~(RootTrue(e) /\ InputOk(e) /\ AggrOk(e) /\ PubTimeOk(e))))
+                       \/ p \in {"KEY", "GENERAL"} /\ e.rec = "auth" /\ PfAvail(e) /\ e.cert \in {"notYetValid", "expired", "badSignature"}
                        \/ p = "CAL" /\ FetchOk(e) /\ ~(RootTrue(e) /\ InputOk(e) /\ AggrOk(e) /\ RLinksOk(e))
 OkOnlyIfBound(p, e) == Verdict(p, e).res = "OK" => (e.internal = "ok" /\ Bound(p, e))
 FailOnlyOnContradiction(p, e) == Verdict(p, e).res = "FAIL" => Contradiction(p, e)
 BrokenNeverOk(p, e) == e.internal = "broken" => Verdict(p, e).res = "FAIL"
 (* a missing anchor, a forbidden / unavailable / failed extension: inconclusive, never OK and never FAIL *)
 NoAnchorIsNA(p, e) == /\ (p = "USERPUB" /\ e.up = "none" /\ e.internal = "ok") => Verdict(p, e).res = "NA"
-                      /\ (p \in {"PUBFILE", "KEY"} /\ e.pf = "none" /\ e.internal = "ok") => Verdict(p, e).res = "NA"
+                      /\ (p \in {"PUBFILE", "KEY"} /\ ~PfAvail(e) /\ e.internal = "ok") => Verdict(p, e).res = "NA"
                       /\ (p = "CAL" /\ ~FetchOk(e) /\ e.internal = "ok") => Verdict(p, e).res = "NA"
                       /\ (p = "KEY" /\ e.rec # "auth" /\ e.internal = "ok") => Verdict(p, e).res = "NA"
 =============================================================================
